@@ -54,6 +54,12 @@ pub struct MsgRec {
     pub consumed: bool,
     pub seq_sent: u64,
     pub seq_recv: Option<u64>,
+    /// rushing: held back by the adversary until every other party has sent its message of the
+    /// same round (label, occurrence) to the sender; rewritten at delivery time
+    pub held: bool,
+    /// rushing: message towards the cheater that is rewritten so that the cheater's own (honest)
+    /// code sees a consistent round
+    pub held_in: bool,
 }
 
 #[derive(Clone, Debug)]
@@ -74,6 +80,10 @@ pub enum ProxyAction {
 }
 
 pub type Proxy = Box<dyn FnMut(&MsgMeta, &[u8]) -> ProxyAction + Send>;
+/// Which messages the adversary holds back (rushing).
+pub type HoldPred = Box<dyn Fn(&MsgMeta) -> bool + Send>;
+/// Rewrites a held message at delivery time, seeing everything sent so far.
+pub type LateProxy = Box<dyn FnMut(&MsgRec, &[MsgRec]) -> Option<Vec<u8>> + Send>;
 
 #[derive(Default)]
 struct Link {
@@ -102,6 +112,10 @@ pub struct Net {
     /// monitor m1: more than one send / recv outstanding for one peer
     pub m1: Option<String>,
     pub proxy: Option<Proxy>,
+    pub hold: Option<HoldPred>,
+    pub late: Option<LateProxy>,
+    /// set by the executor when nothing else can happen: held messages are released as they are
+    pub release_all: bool,
     /// crash `party` when it tries to send its (k+1)-th message
     pub crash_after: Option<(usize, usize)>,
     pub crash_now: Vec<bool>,
@@ -127,6 +141,9 @@ impl Net {
             out_recv: vec![vec![0; n]; n],
             m1: None,
             proxy: None,
+            hold: None,
+            late: None,
+            release_all: false,
             crash_after: None,
             crash_now: vec![false; n],
             record_bytes: true,
@@ -158,7 +175,10 @@ impl Net {
         let mut v = vec![];
         for a in 0..self.n {
             for b in 0..self.n {
-                if !self.links[a][b].in_flight.is_empty() {
+                if let Some(id) = self.links[a][b].in_flight.front() {
+                    if (self.msgs[*id].held || self.msgs[*id].held_in) && !self.release_all && !self.round_complete(*id) {
+                        continue;
+                    }
                     v.push((a, b));
                 }
             }
@@ -166,7 +186,36 @@ impl Net {
         v
     }
 
+    /// Has every other party sent its message of the same round to the sender of message `id`?
+    /// (inbound: has the recipient sent its own message of that round to the sender?)
+    fn round_complete(&self, id: usize) -> bool {
+        let m = &self.msgs[id];
+        if m.held_in {
+            return self.msgs.iter().any(|x| x.from == m.to && x.to == m.from && x.label == m.label && x.label_occ == m.label_occ);
+        }
+        (0..self.n).filter(|j| *j != m.from).all(|j| self.msgs.iter().any(|x| x.from == j && x.to == m.from && x.label == m.label && x.label_occ == m.label_occ))
+    }
+
+    pub fn has_held(&self) -> bool {
+        self.links.iter().flatten().any(|l| l.in_flight.front().map(|id| self.msgs[*id].held || self.msgs[*id].held_in).unwrap_or(false))
+    }
+
     pub fn deliver(&mut self, a: usize, b: usize) {
+        if let Some(id) = self.links[a][b].in_flight.front().copied() {
+            if (self.msgs[id].held || self.msgs[id].held_in) && self.round_complete(id) {
+                if let Some(mut late) = self.late.take() {
+                    if let Some(nb) = late(&self.msgs[id], &self.msgs) {
+                        if nb != self.msgs[id].wire {
+                            self.msgs[id].wire = nb;
+                            if self.msgs[id].held {
+                                self.msgs[id].tampered = true;
+                            }
+                        }
+                    }
+                    self.late = Some(late);
+                }
+            }
+        }
         if let Some(id) = self.links[a][b].in_flight.pop_front() {
             self.links[a][b].visible.push_back(id);
             self.msgs[id].delivered = true;
@@ -274,6 +323,9 @@ impl Channel for SimChannel {
                 Some(p) => p(&meta, &bytes),
                 None => ProxyAction::Pass,
             };
+            let held = net.hold.as_ref().map(|h| h(&meta)).unwrap_or(false);
+            // the same round in the other direction: would the recipient hold its own message?
+            let held_in = net.hold.as_ref().map(|h| h(&MsgMeta { from: party, to: me, ..meta.clone() })).unwrap_or(false);
             let mut wires: Vec<(Vec<u8>, bool)> = vec![];
             match action {
                 ProxyAction::Pass => wires.push((bytes.clone(), false)),
@@ -308,6 +360,8 @@ impl Channel for SimChannel {
                     consumed: false,
                     seq_sent,
                     seq_recv: None,
+                    held,
+                    held_in,
                 });
                 net.links[me][party].in_flight.push_back(id);
                 first.get_or_insert(id);
